@@ -82,9 +82,9 @@ Theorem b_fixed_is_order_independent :
   forall (Res : Type) (F : tkind -> tcall -> option Z -> list Z -> Res) (tc : tcfg) (t : tkind),
   t_guard tc t = true ->
   forall (b : Z) (cs1 cs2 : list (tcall * list Z)) (c : tcall * list Z),
-    snd (tstep Res F tc t (tfinal Res F tc t (Some b) cs1) c) = tpure Res F t b c /\
-    snd (tstep Res F tc t (tfinal Res F tc t (Some b) cs2) c) = tpure Res F t b c /\
-    tresults Res F tc t (Some b) cs1 = map (tpure Res F t b) cs1 /\
+    snd (tstep Res F tc t (tfinal Res F tc t (Some b) cs1) c) = tpure Res F tc t b c /\
+    snd (tstep Res F tc t (tfinal Res F tc t (Some b) cs2) c) = tpure Res F tc t b c /\
+    tresults Res F tc t (Some b) cs1 = map (tpure Res F tc t b) cs1 /\
     (Permutation cs1 cs2 -> Permutation (tresults Res F tc t (Some b) cs1) (tresults Res F tc t (Some b) cs2)).
 Proof. exact b_fixed_is_order_independent_lemma. Qed.
 Print Assumptions b_fixed_is_order_independent.
@@ -95,9 +95,30 @@ Theorem first_call_fixes_b :
   forall (c0 : tcall * list Z) (cs : list (tcall * list Z)),
     t_sets tc t (fst c0) = true -> amax (snd c0) <> 0%Z ->
     tfinal Res F tc t None (c0 :: cs) = Some (amax (snd c0)) /\
-    tresults Res F tc t None (c0 :: cs) = map (tpure Res F t (amax (snd c0))) (c0 :: cs).
+    tresults Res F tc t None (c0 :: cs) = map (tpure Res F tc t (amax (snd c0))) (c0 :: cs).
 Proof. exact first_call_fixes_b_lemma. Qed.
 Print Assumptions first_call_fixes_b.
+
+(* ---- "infers its scale from the first grid it sees": if every call whose result depends on the scale also stores
+   it, then in every history without a raised error -- b given or inferred, calls in any order -- every result is a
+   function of the call alone (one scale ob for the whole life of the object), so the same call returns the same value
+   wherever it occurs *)
+Theorem results_function_of_call :
+  forall (Res : Type) (F : tkind -> tcall -> option Z -> list Z -> Res) (tc : tcfg) (t : tkind),
+  t_guard tc t = true -> (forall cl, t_uses tc t cl = true -> t_sets tc t cl = true) ->
+  forall (b0 : option Z) (cs : list (tcall * list Z)),
+    (forall r, In r (tresults Res F tc t b0 cs) -> r <> TErr) ->
+    exists ob : option Z, tresults Res F tc t b0 cs = map (tcanon Res F tc t ob) cs /\ (forall b, b0 = Some b -> ob = Some b).
+Proof. exact results_function_of_call_lemma. Qed.
+Print Assumptions results_function_of_call.
+
+(* ---- a call that uses an inferred scale without storing it is refuted: the same call returns two different values *)
+Theorem scale_used_not_kept_refuted : forall (tc : tcfg) (t : tkind) (cl : tcall),
+  t_guard tc t = true -> t_uses tc t cl = true -> t_sets tc t cl = false -> t_sets tc t CTransform = true ->
+  exists c1 c2 : tcall * list Z,
+    let rs := tresults (option Z) (fun _ _ b _ => b) tc t None [c1; c2; c1] in nth 0 rs TErr <> nth 2 rs TErr.
+Proof. exact scale_used_not_kept_refuted_lemma. Qed.
+Print Assumptions scale_used_not_kept_refuted.
 
 Theorem b_unfixed_is_order_dependent :
   exists c1 c2 : tcall * list Z,
